@@ -568,4 +568,112 @@ example : ∃ r' s p,
 
 end EndToEnd
 
+/-! ## END TO END over histories that parse: parse ∘ API edits ∘ `deduplicate_namespaces` ∘ serialise ∘ parse
+
+The same composition with the bridges for FULL histories (`C04_reach_full`,
+`C01_reachable_representable_full`, Props/C04.lean): the history may contain `parse` / `parse_fragment` steps
+of arbitrary texts anywhere. -/
+
+section EndToEndFull
+
+/-- ⟦C15_reachable_dedup_full⟧ **… over histories that PARSE and edit.**  The statement of `C15_reachable_dedup`
+    with `S` the store after any FULL history `cs` from `Xot::new()` with the tables `env` (`PCall`,
+    Model/FparseHist.lean: `parse` / `parse_fragment` of ARBITRARY texts, accepted or rejected, and well-kinded
+    extended API calls in any order; consolidation never switched off), `r` any parentless tree of it whose
+    root is a document node — a parsed document, edited or not, or one built by hand — in the value-level
+    domain for the tables of the store and writable, `node` ANY node of `r`, `S'` the store after the history
+    extended by the step `deduplicate_namespaces(node)`.  Same conclusion (the step answers `Ok`, tables
+    untouched, invariant, the same step once more changes nothing — store equality, index included —, `r'`
+    is the tree model's answer, `Representable`, writable, `to_string` ∘ `parse` gives back `r'` erased,
+    `deep_equal` to the tree before the call); moreover the xml:id index of the store is untouched. -/
+theorem C15_reachable_dedup_full (env : Env) (cs : List PCall) (hw : ∀ c ∈ cs, c.wellKinded)
+    (S : PStore) (hS : S = (PStore.init env).run cs) (hoff : S.forest.everOff = false)
+    (r : HTree) (hr : r ∈ S.forest.roots) (hdoc : r.value.isDocument = true) (henv : envOK S.env = true)
+    (hval : r.erase.allNodes (fun v _ => valueOK S.env v) = true)
+    (hid : (xmlIdValues S.env r.erase).Nodup) (hone : singleRoot r.erase = true)
+    (hwr : namesWritable S.env r.erase [] = some true)
+    (node : Nat) (hn : node ∈ r.handles)
+    (S' : PStore) (hS' : S' = (PStore.init env).run (cs ++ [.api (.deduplicateNamespaces node)])) :
+    ((PCall.api (.deduplicateNamespaces node)).run S).2 = .api .ok ∧ S'.env = S.env ∧ S'.index = S.index ∧
+    S'.forest.Inv ∧
+    (PCall.api (.deduplicateNamespaces node)).run S' = (S', .api .ok) ∧
+    ∃ (r' : HTree) (path : Path), r.pathOf node = some path ∧ r'.pathOf node = some path ∧
+      S'.forest.roots = S.forest.roots.map (fun y => if (y.pathOf node).isSome then r' else y) ∧
+      S'.forest.rootOf? node = some r' ∧
+      deduplicateNamespaces S.env r.erase path = some r'.erase ∧
+      Representable S.env r'.erase = true ∧ namesWritable S.env r'.erase [] = some true ∧
+      ∃ s p, toXmlString S.env r'.erase [] = .ok s ∧ parseString .document S.env s = .ok p ∧
+        p.tree = r'.erase ∧ p.env = S.env ∧ deepEqual p.tree r.erase = true := by
+  have hi' : S'.forest.Inv := by
+    rw [hS']
+    refine (C04_reach_full env _ (fun c hc => ?_)).1
+    rcases List.mem_append.mp hc with hc | hc
+    · exact hw c hc
+    · rw [List.mem_singleton.mp hc]; trivial
+  have hstep : S' = ⟨(S.forest.deduplicateNamespaces S.env node).1, S.env, S.index⟩ := by
+    rw [hS', hS]; simp [PStore.run, List.foldl_append, PStore.step, PCall.run, Forest.XCall.run, PStore.store]
+  subst hS
+  have hi := (C04_reach_full env cs hw).1
+  have hrep : Representable ((PStore.init env).run cs).env r.erase = true := by
+    rw [(C01_reachable_representable_full env cs hw hoff r hr _).2]
+    simp [henv, hdoc, hval, hid, hone]
+  have h1 := Forest.fpxr_rootOf_of_mem hi.nodup hr hn
+  obtain ⟨path, h2⟩ := Forest.fpxd_rootOf_path h1
+  obtain ⟨r', a1, a2, a3, a4, a5, _, _, _, _⟩ := C15_forest_dedup_refines_tree _ hi
+    ((PStore.init env).run cs).env node r h1 path h2
+  have hrep' := C15_representable _ r.erase r'.erase path hrep a2
+  obtain ⟨s, p, k1, k2, k3, k4, k5⟩ := C15_roundtrip _ r.erase r'.erase path hrep a2 hwr
+  have hwr' : namesWritable ((PStore.init env).run cs).env r'.erase [] = some true := by
+    have hfrag : RepresentableFragment ((PStore.init env).run cs).env r'.erase = true := by
+      simp only [Representable, Bool.and_eq_true] at hrep'; exact hrep'.1
+    exact (C01_serialises _ r'.erase hfrag).mp ⟨s, k1⟩
+  have hidem := C15_forest_dedup_idem _ hi ((PStore.init env).run cs).env node
+  subst hstep
+  refine ⟨?_, rfl, rfl, hi', ?_, r', path, h2, a4, a5, a3, a2, hrep', hwr', s, p, k1, k2, k3, k4, k5⟩
+  · simp only [PCall.run, Forest.XCall.run, PStore.store]
+    rw [a1]
+  · simp only [PCall.run, Forest.XCall.run, PStore.store]
+    rw [hidem]
+
+/-! Non-vacuity, closed, from the tables of `Xot::new()` (`Env.fresh`): PARSE `fullText` of Props/C04.lean,
+    `<r xmlns:p="urn:a"><p:a>t</p:a></r>`, then EDIT: `namespaces_mut(p:a).insert(p, urn:a)` — a redundant
+    declaration (new handle 5); the document serialises with it.  Every hypothesis holds by evaluation; after
+    the step `deduplicate_namespaces(doc)` handle 5 is gone and the document serialises to `fullText` again,
+    which reparses to it, `deep_equal` to the tree before the call. -/
+
+def c15FullCalls : List PCall :=
+  [.parse .document fullText, .api (.call (.mapInsert .namespaces 3 (.namespace 2 2)))]
+def c15FullRoot : HTree :=
+  .node 0 .document [.node 1 (.element 2) [.node 2 (.namespace 2 2) [],
+    .node 3 (.element 3) [.node 5 (.namespace 2 2) [], .node 4 (.text ['t']) []]]]
+
+example :
+    let S := (PStore.init Env.fresh).run c15FullCalls
+    (∀ c ∈ c15FullCalls, c.wellKinded) ∧ S.forest.everOff = false ∧ S.forest.roots = [c15FullRoot] ∧
+    c15FullRoot.value.isDocument = true ∧ envOK S.env = true ∧
+    c15FullRoot.erase.allNodes (fun v _ => valueOK S.env v) = true ∧
+    (xmlIdValues S.env c15FullRoot.erase).Nodup ∧ singleRoot c15FullRoot.erase = true ∧
+    namesWritable S.env c15FullRoot.erase [] = some true ∧ 0 ∈ c15FullRoot.handles ∧
+    toXmlString S.env c15FullRoot.erase [] = .ok "<r xmlns:p=\"urn:a\"><p:a xmlns:p=\"urn:a\">t</p:a></r>".toList := by
+  decide +kernel
+
+example :
+    let S' := (PStore.init Env.fresh).run (c15FullCalls ++ [.api (.deduplicateNamespaces 0)])
+    S'.forest.allHandles = [0, 1, 2, 3, 4] ∧
+    S'.forest.roots.map (fun r' => toXmlString S'.env r'.erase []) = [.ok fullText] := by decide +kernel
+
+example : ∃ r' s p,
+    let S := (PStore.init Env.fresh).run c15FullCalls
+    let S' := (PStore.init Env.fresh).run (c15FullCalls ++ [.api (.deduplicateNamespaces 0)])
+    (PCall.api (.deduplicateNamespaces 0)).run S' = (S', .api .ok) ∧
+    S'.forest.rootOf? 0 = some r' ∧ toXmlString S.env r'.erase [] = .ok s ∧
+      parseString .document S.env s = .ok p ∧ p.tree = r'.erase ∧ deepEqual p.tree c15FullRoot.erase = true := by
+  obtain ⟨_, _, _, _, hidem, r', _, _, _, _, h3, _, _, _, s, p, k1, k2, k3, _, k5⟩ :=
+    C15_reachable_dedup_full Env.fresh c15FullCalls (by decide) _ rfl (by decide +kernel)
+      c15FullRoot (by decide +kernel) rfl (by decide +kernel) (by decide +kernel) (by decide +kernel)
+      (by decide +kernel) (by decide +kernel) 0 (by decide) _ rfl
+  exact ⟨r', s, p, hidem, h3, k1, k2, k3, k5⟩
+
+end EndToEndFull
+
 end XotModel.Props
